@@ -13,6 +13,7 @@ from . import common, molprops
 
 SPEC = {
     "level": "exploration",
+    "level_text": "Exploration: every string returned by serialize_molecule in the workload is judged by a recogniser written from the EBNF/Hill's rule and by a layout validator that knows the argument graph. Workload emphasises formulas the corpus lacks (all 118 symbols, with/without C and H, counts >= 10, both attribute keys, reader-supplied explicit zeros, bond-less labelled molecules).",
     "suite_under_monitor": True,
     "technique": "runtime contract (icontract ensure) on serialize_molecule: independent grammar recogniser + canonical-layout validator",
     "rule": ("cases: graphs built directly (M1 n<=4, M2, M3, M4, M5 rare-element formulas, M5all), graphs produced by the molfile readers from V3000/V2000 "
